@@ -419,6 +419,7 @@ static inline void a_store(volatile T* a, T v, int mo) {
   }
   if (rel) me->vc.c[me->id]++;
   me->idle_pts = 0;
+  if (G.post_pts && !on_stack) point(P_POST, addr);
 }
 
 template <typename T, typename F>
@@ -436,6 +437,7 @@ static inline T a_rmw(volatile T* a, int mo, F f) {
   else if (me->has_fence_rel) loc_rmw(addr, sizeof(T), &me->fence_rel);
   G.idle_jumps = 0; me->idle_pts = 0;
   fire_watch(addr, sizeof(T), (uint64_t)oldv, (uint64_t)newv);
+  if (G.post_pts) point(P_POST, addr);
   return oldv;
 }
 
@@ -459,6 +461,7 @@ static inline bool a_cas(volatile T* a, T* expected, T desired, int mo, int fmo)
   else if (me->has_fence_rel) loc_rmw(addr, sizeof(T), &me->fence_rel);
   G.idle_jumps = 0; me->idle_pts = 0;
   fire_watch(addr, sizeof(T), (uint64_t)oldv, (uint64_t)desired);
+  if (G.post_pts) point(P_POST, addr);
   return true;
 }
 
